@@ -1,5 +1,5 @@
 (* C07 on the definitions regenerated from the source (Gen/Src.v, heap style). Statements only. *)
-From MV Require Import Base Record Regex Typing Assembly Pipeline Py PyObj PyHeap SrcEquivHeap.
+From MV Require Import Base Record Regex Typing Assembly Pipeline Py PyObj PyHeap SrcEquivHeap SrcEquivCite SrcEquivAsmHeap.
 From MV.Gen Require Import Src.
 From Coq Require Import String.
 Local Open Scope Z_scope.
@@ -58,3 +58,13 @@ Example C07_src_example :
   (let '(r, h) := run_assemble 3 ve [ENT 0 (generic_cls RModule e) (mrec "[9]"%string)] [] in
    r = Err XIndexError /\ heap_get h 0%nat = Some (mrec "[9]"%string) /\ heap_get h 99%nat = Some vrec).
 Proof. vm_compute. repeat split. Qed.
+
+(* consequently repeating the same call, or retrying with corrected modules after a failure, is
+   calling on the same values: after vector.assemble(...) AS REGENERATED, whatever its outcome,
+   every argument read through the heap it left is the argument that was passed *)
+Theorem C07_src_repeat : forall fuel vector m ms kw,
+  NoDup (map ent_id (vector :: m :: ms)) ->
+  let h1 := snd (run_assemble fuel vector (m :: ms) kw) in
+  refresh h1 vector = vector /\ refresh h1 (m :: ms) = m :: ms.
+Proof. exact run_assemble_repeat. Qed.
+Print Assumptions C07_src_repeat.
